@@ -23,7 +23,9 @@ LEVEL_TEXT = ('The sign algebra (24-entry and 8-entry tables, hydrogen-last comp
               'real private functions, reader and writer. Agreement with RDKit, "mirror images never equal" and "labels only on '
               'stereogenic centres" are validated by run-time comparison, not proved - except the label bookkeeping of fix_stereo '
               '(collection pass, restore rounds, cache state), which is modelled over an arbitrary chiral_* oracle and proved sound, '
-              'complete (fixpoint), terminating, cache-fresh and order-independent, and compared with the real fix_stereo on every run.')
+              'complete (fixpoint), terminating, cache-fresh and order-independent, and compared with the real fix_stereo on every run; and '
+              'the reference-pair choice of __differentiation (min by class), proved to depend on classes only (slot-order and '
+              'renumbering invariance) and compared with the calls the real code makes.')
 LEVEL_NOTE = ('Lean kernel; gen_stereo translator; hand-written model of _translate_*_sign/_format_atom/postprocess_molecule tied by '
               'exhaustive correspondence; RDKit is a black box used only as an independent oracle; float rounding of 2-D '
               'coordinates is outside the model (integer coordinates only).')
